@@ -205,6 +205,20 @@ def prepare(force=False, verbose=False):
         fcntl.flock(lock, fcntl.LOCK_UN)
 
 
+RACE_HARNESS = os.path.join(WORK, "verifharness-race")
+
+
+def build_race_harness():
+    """the harness once more with the Go race detector (thorough tier of the concurrent families)"""
+    gm = os.path.join(WORK, "gomod")
+    ov = overlay()
+    if os.path.exists(RACE_HARNESS):
+        os.remove(RACE_HARNESS)
+    rc, out = sh(["go", "build", "-race", "-modfile=" + os.path.join(gm, "go.mod"), "-tags", "verif", "-overlay", ov,
+                  "-o", RACE_HARNESS, "./internal/verifharness"], cwd=REPO, env=GOENV)
+    return rc == 0 and os.path.exists(RACE_HARNESS), out[-1500:]
+
+
 def run_lines(cmd, lines, timeout=1500):
     """feed lines to a line-protocol process; returns {id: rest-of-output-line}"""
     inp = "\n".join(lines) + "\n"
